@@ -1,6 +1,8 @@
 #!/usr/bin/env python3
 """diff-to-mutants <worktree> <group-name> <expect-json>: turns the uncommitted edits of a scratch worktree of /repo into
-old/new replacement entries for selftest/mutants.json (one entry per changed region, widened until `old` is unique)."""
+old/new replacement entries for selftest/mutants.json: one entry per group of changed regions, widened until `old` is unique
+in the original file; regions whose (widened) contexts would overlap are merged into one entry, so that the entries of a file
+can be applied in any order."""
 import difflib, json, subprocess, sys, os
 wt, group, expect = sys.argv[1], sys.argv[2], json.loads(sys.argv[3])
 files = subprocess.check_output(["git", "-C", wt, "diff", "--name-only"], text=True).split()
@@ -10,17 +12,29 @@ for f in files:
     new = open(os.path.join(wt, f)).read()
     a, b = old.splitlines(True), new.splitlines(True)
     sm = difflib.SequenceMatcher(None, a, b, autojunk=False)
-    n = 0
-    for tag, i1, i2, j1, j2 in sm.get_opcodes():
-        if tag == "equal":
-            continue
-        ctx = 1
-        while True:
-            o = "".join(a[max(0, i1 - ctx):i2 + ctx])
-            if old.count(o) == 1 or ctx > 40:
+    regions = [[i1, i2, j1, j2] for tag, i1, i2, j1, j2 in sm.get_opcodes() if tag != "equal"]
+    while True:
+        hunks = []
+        for i1, i2, j1, j2 in regions:
+            ctx = 1
+            while True:
+                lo, hi = max(0, i1 - ctx), min(len(a), i2 + ctx)
+                o = "".join(a[lo:hi])
+                if old.count(o) == 1 or ctx > 60:
+                    break
+                ctx += 1
+            hunks.append((lo, hi))
+        merged = False
+        for k in range(len(regions) - 1):
+            if hunks[k][1] > hunks[k + 1][0]:       # contexts overlap: make it one region
+                r1, r2 = regions[k], regions[k + 1]
+                regions[k:k + 2] = [[r1[0], r2[1], r1[2], r2[3]]]
+                merged = True
                 break
-            ctx += 1
-        nn = "".join(a[max(0, i1 - ctx):i1]) + "".join(b[j1:j2]) + "".join(a[i2:i2 + ctx])
-        n += 1
+        if not merged:
+            break
+    for n, ((i1, i2, j1, j2), (lo, hi)) in enumerate(zip(regions, hunks), 1):
+        o = "".join(a[lo:hi])
+        nn = "".join(a[lo:i1]) + "".join(b[j1:j2]) + "".join(a[i2:hi])
         out.append({"name": "%s-%s-%d" % (group, os.path.basename(f).replace(".rs", ""), n), "file": f, "old": o, "new": nn, "expect": expect})
 print(json.dumps({"name": group, "mutants": out}, indent=1))
